@@ -69,7 +69,7 @@ func (vc *VC) checkAnchorsBound(fr *frame) {
 		have[l] = true
 	}
 	for _, cl := range fr.contract.Asserts {
-		if !have[strings.TrimPrefix(cl.Label, "post:")] {
+		if !have[strings.TrimPrefix(strings.TrimPrefix(cl.Label, "post:"), "after:")] {
 			st := &State{pc: vc.P.True(), cells: map[cellKey]Val{}, heap: map[string]*Term{}}
 			var avail []string
 			for l := range have {
@@ -115,5 +115,25 @@ func (vc *VC) markMust(fr *frame, st *State, label string) {
 		if cl.Label == label {
 			st.heap["ghost$must:"+label] = vc.P.True()
 		}
+	}
+}
+
+// anchorAfter proves the after@ clauses of a call right after it returned; $result / $result<i> name its results.
+func (vc *VC) anchorAfter(fr *frame, st *State, label string, res Val, rt types.Type, pos token.Pos) {
+	for _, cl := range fr.contract.Asserts {
+		if cl.Label != "after:"+label {
+			continue
+		}
+		extra := map[string]EV{}
+		if tu, ok := rt.(*types.Tuple); ok && res.K == VStruct {
+			for i := 0; i < tu.Len() && i < len(res.Fs); i++ {
+				extra[fmt.Sprintf("$result%d", i)] = EV{V: res.Fs[i], T: tu.At(i).Type()}
+			}
+		} else {
+			extra["$result"] = EV{V: res, T: rt}
+		}
+		g := vc.evalClause(fr, st, cl, extra)
+		vc.oblige(st, "assert", fr.prefix+"after."+label+"."+fmt.Sprint(cl.Idx), "assertion after "+label+": "+cl.Text, g, cl.Tags, pos, false)
+		vc.assume(st, g)
 	}
 }
